@@ -166,7 +166,14 @@ def c20_6(ctx: Ctx):
     t = " ".join(src(rr.node).split())
     ctx.check("if block in self._references: start_refs, end_refs = self._references.pop(block)" in t, rr, rr.node,
               "retarget_references takes over (pops) the source block's trees", "source trees are not detached from the block")
-    ctx.check("if not any(block.references) and block not in self._references: return" in t, rr, rr.node,
+    lr = linear(rr.node)
+    early = [g for g in lr.stmts if isinstance(g.node, ast.Return) and g.node.value is None]
+    ok = False
+    if early:
+        for indirect in ("block in self._references", "self._has_indirect_references(block)"):
+            want = lr.cond_at(early[0], ast.parse(f"not any(block.references) and not ({indirect})", mode="eval").body)
+            ok = ok or (implies(early[0].guard, want) and implies(want, early[0].guard))
+    ctx.check(ok, rr, early[0].node if early else rr.node,
               "nothing to do only when the block has neither direct nor indirect references", "early-return condition changed")
 
 
@@ -332,18 +339,29 @@ def c07_9(ctx: Ctx):
 # ----------------------------------------------------------------------------
 
 
-def _hook_triggering(repo: Repo) -> Set[str]:
-    """Functions whose call cone touches an offset-map wrapper (its table hook replaces table.data)."""
+def _hook_triggering(repo: Repo) -> Dict[str, Set[str]]:
+    """Functions whose call cone touches an offset-map wrapper (its table hook replaces table.data),
+    with the wrapped tables they touch (attribute names of _auxdata_offsetmap; the tuple
+    OFFSETMAP_AUX_DATA_TABLES stands for its members)."""
     cg = callgraph(repo)
-    direct = set()
+    tup = repo.mod("_auxdata_offsetmap").toplevel_assign("OFFSETMAP_AUX_DATA_TABLES")
+    if isinstance(tup, ast.Call) and len(tup.args) == 2:
+        tup = tup.args[1]
+    members = {src(e) for e in tup.elts} if isinstance(tup, (ast.Tuple, ast.List)) else {"comments", "padding", "symbolic_expression_sizes"}
+    direct: Dict[str, Set[str]] = {}
     for q, fi in repo.funcs.items():
         for n in ast.walk(fi.node):
-            if isinstance(n, ast.Name) and n.id in ("OFFSETMAP_AUX_DATA_TABLES", "_auxdata_offsetmap"):
-                direct.add(q)
-    out = set()
+            if isinstance(n, ast.Name) and n.id == "OFFSETMAP_AUX_DATA_TABLES":
+                direct.setdefault(q, set()).update(members)
+            if isinstance(n, ast.Attribute) and isinstance(n.value, ast.Name) and n.value.id == "_auxdata_offsetmap":
+                direct.setdefault(q, set()).add(n.attr)
+    out: Dict[str, Set[str]] = {}
     for q in repo.funcs:
-        if cg.cone([q]) & direct:
-            out.add(q)
+        t: Set[str] = set()
+        for d in cg.cone([q]) & set(direct):
+            t |= direct[d]
+        if t:
+            out[q] = t
     return out
 
 
@@ -379,7 +397,8 @@ def c04_7(ctx: Ctx):
                 if g_bind.index < x.index <= last:
                     for c in lin.stmt_calls(x):
                         for t in resolve_call(repo, fi, c, env):
-                            if isinstance(t, FuncInfo) and t.qual in hook and not any(isinstance(a, ast.Name) and a.id == u.bound for a in c.args if False):
+                            # only a wrapper access to the *same* table re-wraps it
+                            if isinstance(t, FuncInfo) and t.qual in hook and recv.split(".")[-1] in hook[t.qual]:
                                 between.append((x, t.qual))
             n += 1
             ctx.check(not between, fi, u.call, f"`{u.bound} = {src(u.call)[:50]}` is used before any call that can re-wrap the table",
